@@ -239,8 +239,51 @@ template <template <class...> class G, class L> void binRoundTripOpaque(const js
         throw Fail{"round trip of a float/double/int-labelled graph is not the identity: " + r.value.dump()};
 }
 
+// the caller's own serialiser (documented argument of writer and loader): an 8-byte label type
+// stored in W bytes.  The file must be the W-byte-label file of the specification and load back.
+template <template <class...> class G> void binRoundTripCustom(const json &c, bool directed, size_t W) {
+    using L = unsigned long long;
+    const size_t n = c.at("n").get<size_t>();
+    auto dec = [](const L &l) { return labelNum<L>(l); };
+    G<L> g = buildIns<G, L>(n, c.at("ins"), [](int a) { return (L)a; }, false);
+    if (encGraph(g, directed, false, dec) != c.at("value"))
+        throw Skip{"the shape could not be built as specified"};
+    std::string path = tmpFile("rtc.bin");
+    std::remove(path.c_str());
+    io::writeBinaryEdgeList<G, L>(g, path, [W](std::ofstream &f, L v) {
+        for (size_t b = 0; b < W; ++b)
+            f.put((char)((v >> (8 * b)) & 0xff));
+    });
+    std::string got = readAll(path), want;
+    for (auto &b : c.at("bytes"))
+        want.push_back((char)(unsigned char)b.get<int>());
+    if (got != want)
+        throw Fail{"file written through a caller's " + std::to_string(W) + "-byte serialiser differs from the " +
+                   std::to_string(W) + "-byte-label records"};
+    ChildResult r = inChild([&]() -> json {
+        G<L> h = io::loadBinaryEdgeList<G, L>(path, [W](std::ifstream &f, L &v) -> std::ifstream & {
+            v = 0;
+            for (size_t b = 0; b < W; ++b) {
+                char ch;
+                if (!f.get(ch))
+                    return f;
+                v |= (L)(unsigned char)ch << (8 * b);
+            }
+            return f;
+        });
+        return {{"g", encGraph(h, directed, false, dec)}};
+    });
+    if (!r.finished)
+        throw Fail{describe(r)};
+    if (r.value.contains("threw") || r.value.at("g") != c.at("loaded"))
+        throw Fail{"file written and read through a caller's " + std::to_string(W) + "-byte serialiser of an 8-byte label type: loaded " +
+                   r.value.dump() + " expected " + c.at("loaded").dump()};
+}
+
 template <template <class...> class G> void binRoundTrip(const json &c, bool directed) {
     int w = c.at("w").get<int>();
+    if (w == 1 || w == 2 || w == 4)
+        binRoundTripCustom<G>(c, directed, (size_t)w);
     switch (w) {
     case 0:
         binRoundTripT<G, NoLabel>(c, directed);
